@@ -435,3 +435,94 @@ func ZZ_C19_commandsAfterTheCanaryWasSuperseded() {
 	nondet.Observe("state", string(final.Status.State))
 	nondet.Reach("C19.superseded.validated", cmd == "validate" && final.Status.ActiveReplicaSet == "foo-c")
 }
+
+func zzRunCanaryCmd(c *fakeapi.Client, cmd string) error {
+	switch cmd {
+	case "pause":
+		return (&pauseOptions{client: c, IOStreams: zzIO, userNamespace: "ns", userExtendedDaemonSetName: "foo", pauseStatus: cmdPause}).run()
+	case "unpause":
+		return (&pauseOptions{client: c, IOStreams: zzIO, userNamespace: "ns", userExtendedDaemonSetName: "foo", pauseStatus: cmdUnpause}).run()
+	case "validate":
+		return (&validateOptions{client: c, IOStreams: zzIO, userNamespace: "ns", userExtendedDaemonSetName: "foo"}).run()
+	}
+	return (&failOptions{client: c, IOStreams: zzIO, userNamespace: "ns", userExtendedDaemonSetName: "foo", failStatus: true}).run()
+}
+
+// ZZ_C19_canaryCommandSequences: "every sequence of up to three commands, followed by reconciles": from
+// a running canary (or one the user paused), two (thorough: three) of pause / unpause / validate / fail are run one after the
+// other, with an ExtendedDaemonSet reconcile after each command or only at the end.  Every command
+// either refuses and writes nothing, or makes exactly one write that changes only its documented
+// annotation or condition; a command run after the canary has ended (rolled back or promoted by the
+// reconcile in between) refuses.  After two final reconciles the outcome is the documented one wherever
+// the sequence leaves no doubt: fail (without validate) ends in the rollback whatever was paused or
+// unpaused, validate (without fail) promotes the canary replica set even while paused, otherwise the
+// last of pause / unpause decides between Canary Paused and Canary, and the active replica set stays.
+func ZZ_C19_canaryCommandSequences() {
+	start := "canary"
+	if nondet.Bool("startsPausedByTheUser") {
+		start = "user-paused"
+	}
+	c, _ := zzScenario(start)
+	k := 2
+	if nondet.Thorough() {
+		k = 3
+	}
+	reconcileBetween := nondet.Bool("reconcileAfterEachCommand")
+	failed, validated, paused, ended := false, false, start == "user-paused", false
+	for i := 0; i < k; i++ {
+		cmd := nondet.String("cmd"+string(rune('0'+i)), "pause", "unpause", "validate", "fail")
+		before := zzStored(c).DeepCopy()
+		rsBefore := c.ERS[1].DeepCopy()
+		w0 := len(c.Writes())
+		err := zzRunCanaryCmd(c, cmd)
+		writes := len(c.Writes()) - w0
+		after := zzStored(c)
+		if ended {
+			nondet.Assert("C19.seq.refuses-once-the-canary-has-ended", err != nil && writes == 0)
+		}
+		if err != nil {
+			nondet.Assert("C19.seq.refusal-writes-nothing", writes == 0)
+		} else {
+			nondet.Assert("C19.seq.one-write", writes == 1)
+			switch cmd {
+			case "pause", "unpause":
+				nondet.Assert("C19.seq.pause-only-annotations", zzOnlyAnnotationsChanged(before, after, v1alpha1.ExtendedDaemonSetCanaryPausedAnnotationKey, v1alpha1.ExtendedDaemonSetCanaryUnpausedAnnotationKey))
+				paused = cmd == "pause"
+			case "validate":
+				nondet.Assert("C19.seq.validate-only-annotation", zzOnlyAnnotationsChanged(before, after, v1alpha1.ExtendedDaemonSetCanaryValidAnnotationKey))
+				validated = true
+			default:
+				rs := c.ERS[1]
+				nondet.Assert("C19.seq.fail-only-condition", zzOnlyAnnotationsChanged(before, after) && rs.Spec.TemplateGeneration == rsBefore.Spec.TemplateGeneration &&
+					len(rs.Status.Conditions) <= len(rsBefore.Status.Conditions)+1 && len(rs.Annotations) == len(rsBefore.Annotations))
+				failed = true
+			}
+		}
+		if reconcileBetween {
+			_ = zzReconcileEDS(c)
+			if zzStored(c).Status.Canary == nil {
+				ended = true
+			}
+		}
+	}
+	_ = zzReconcileEDS(c)
+	rerr := zzReconcileEDS(c)
+	final := zzStored(c)
+	nondet.Observe("state", string(final.Status.State))
+	nondet.Observe("active", final.Status.ActiveReplicaSet)
+	switch {
+	case failed && validated:
+		// (fail and validate both accepted before any reconcile: the property does not say which one wins)
+	case failed:
+		nondet.Assert("C19.seq.fail-ends-in-the-rollback", final.Status.Canary == nil && final.Status.ActiveReplicaSet == "foo-a" && final.Spec.Template.Spec.Containers[0].Image == "agent:A")
+	case validated:
+		nondet.Assert("C19.seq.validate-promotes", rerr == nil && final.Status.ActiveReplicaSet == "foo-b" && final.Status.Canary == nil)
+	case paused:
+		nondet.Assert("C19.seq.paused", rerr == nil && final.Status.State == v1alpha1.ExtendedDaemonSetStatusStateCanaryPaused && final.Status.ActiveReplicaSet == "foo-a")
+	default:
+		nondet.Assert("C19.seq.running", rerr == nil && final.Status.State == v1alpha1.ExtendedDaemonSetStatusStateCanary && final.Status.ActiveReplicaSet == "foo-a")
+	}
+	nondet.Reach("C19.seq.pause-then-fail", paused && failed && !validated)
+	nondet.Reach("C19.seq.command-after-the-end", ended && !reconcileBetween == false)
+	nondet.Reach("C19.seq.validate-while-paused", paused && validated && !failed)
+}
